@@ -71,7 +71,7 @@ namespace occa {
       if (cstr[i] != c) {
         ret += cstr[i];
       } else {
-        if (i && escapeChar) {
+        if (escapeChar) {
           ret += escapeChar;
         }
         ret += c;
